@@ -50,6 +50,11 @@ pub struct Invocation {
     pub arg_order: u64,
     #[serde(default)]
     pub short_o: bool,
+    /// who runs this invocation: 0 = the scenario's default (root, or nobody when the scenario is
+    /// unprivileged), 1 = nobody, 2 = uid/gid 47001 — a shared directory used by several accounts
+    /// (the scratch tree is made world-writable before every invocation)
+    #[serde(default)]
+    pub uid: u8,
 }
 
 #[derive(Clone, Debug, PartialEq, Eq, Serialize, Deserialize)]
@@ -92,6 +97,11 @@ pub struct PreState {
     /// world-writable first. Root ignores permission bits, an ordinary user does not.
     #[serde(default)]
     pub unprivileged: bool,
+    /// where the tool's standard output goes: 0 = /dev/null, 1 = /dev/full (every write fails
+    /// with ENOSPC), 2 = a pipe whose reader has gone (EPIPE), 3 = closed. A tool that reports
+    /// nothing on stdout cannot depend on it.
+    #[serde(default)]
+    pub stdout: u8,
 }
 
 #[derive(Clone, Debug, PartialEq, Eq, Serialize, Deserialize)]
@@ -251,6 +261,7 @@ fn gen_invocation(r: &mut Rng, names: Option<(String, String)>) -> Invocation {
         eq_form: r.chance(1, 3),
         arg_order: if r.chance(1, 2) { r.next_u64() | 1 } else { 0 },
         short_o: r.chance(1, 4),
+        uid: if r.chance(1, 4) { r.range(1, 2) as u8 } else { 0 },
     };
     if let Some(c) = &inv.country {
         if c.starts_with('-') || c.trim().is_empty() {
@@ -436,6 +447,7 @@ impl Engine for CliSim {
             via_symlink: r.chance(1, 8),
             non_utf8: r.chance(1, 10),
             unprivileged: r.chance(1, 4),
+            stdout: if r.chance(1, 5) { r.range(1, 3) as u8 } else { 0 },
             clock: if r.chance(1, 4) {
                 *r.pick(&[
                     1835438400i64, // 2028-02-29 12:00:00 (leap day)
@@ -588,6 +600,7 @@ impl Engine for CliSim {
             || t.pre.non_utf8
             || t.pre.clock != 0
             || t.pre.unprivileged
+            || t.pre.stdout != 0
         {
             let mut c = t.clone();
             c.pre = PreState {
@@ -604,6 +617,7 @@ impl Engine for CliSim {
                 non_utf8: false,
                 clock: 0,
                 unprivileged: false,
+                stdout: 0,
             };
             v.push(c);
             let mut c = t.clone();
@@ -637,6 +651,7 @@ impl Engine for CliSim {
             push(&|x| x.eq_form = false);
             push(&|x| x.arg_order = 0);
             push(&|x| x.short_o = false);
+            push(&|x| x.uid = 0);
             push(&|x| x.common_name = x.common_name.as_ref().map(|_| "cn".to_string()));
         }
         v
@@ -773,10 +788,15 @@ fn scenario(t: &CliTrace, fault: Option<&(usize, Fault)>, o: &mut Outcome, label
         #[allow(unused_mut)]
         let bin = std::env::var("CLISIM_BIN").expect("CLISIM_BIN");
         // the program chain: [sh -c 'umask ..; exec "$0" "$@"'] [setpriv ... --] tool
-        let drop_priv = t.pre.unprivileged && is_root() && Path::new("/usr/bin/setpriv").exists();
+        let run_as: u32 = match (inv.uid, t.pre.unprivileged) {
+            (1, _) | (0, true) => 65534,
+            (2, _) => 47001,
+            _ => 0,
+        };
+        let drop_priv = run_as != 0 && is_root() && Path::new("/usr/bin/setpriv").exists();
         let mut chain: Vec<std::ffi::OsString> = Vec::new();
         if drop_priv {
-            for a in ["/usr/bin/setpriv", "--reuid=65534", "--regid=65534", "--clear-groups", "--"] {
+            for a in ["/usr/bin/setpriv".to_string(), format!("--reuid={run_as}"), format!("--regid={run_as}"), "--clear-groups".to_string(), "--".to_string()] {
                 chain.push(a.into());
             }
             make_world_writable(&root);
@@ -786,16 +806,22 @@ fn scenario(t: &CliTrace, fault: Option<&(usize, Fault)>, o: &mut Outcome, label
             o.count("invocations_as_unprivileged_user", 1);
         }
         chain.push(bin.into());
-        let mut cmd = if t.pre.umask == 0 {
+        let mut cmd = if t.pre.umask == 0 && t.pre.stdout != 3 {
             let mut c = Command::new(&chain[0]);
             c.args(&chain[1..]);
+            c
+        } else if t.pre.umask == 0 {
+            // closing a descriptor needs the shell too
+            let mut c = Command::new("/bin/sh");
+            c.arg("-c").arg("exec \"$0\" \"$@\" >&-").args(&chain);
             c
         } else {
             // the shell sets the file-creation mask and then *becomes* the next program (exec), so
             // the seam's counters start with the tool's own first system call
             let mask = ["022", "077", "000", "027"][t.pre.umask as usize & 3];
             let mut c = Command::new("/bin/sh");
-            c.arg("-c").arg(format!("umask {mask}; exec \"$0\" \"$@\"")).args(&chain);
+            let close = if t.pre.stdout == 3 { " >&-" } else { "" };
+            c.arg("-c").arg(format!("umask {mask}; exec \"$0\" \"$@\"{close}")).args(&chain);
             c
         };
         cmd.args(inv.os_args(&out_arg)).current_dir(&root).env_clear();
@@ -825,8 +851,22 @@ fn scenario(t: &CliTrace, fault: Option<&(usize, Fault)>, o: &mut Outcome, label
         }
         // watchdog: a tool that never returns is ended after the limit (it only ever matters for
         // a broken tool; a run takes milliseconds)
-        cmd.stdout(std::process::Stdio::null()).stderr(std::process::Stdio::piped());
+        match t.pre.stdout {
+            1 => {
+                let full = std::fs::OpenOptions::new().write(true).open("/dev/full").expect("/dev/full");
+                cmd.stdout(std::process::Stdio::from(full));
+            }
+            2 => {
+                cmd.stdout(std::process::Stdio::piped());
+            }
+            _ => {
+                cmd.stdout(std::process::Stdio::null());
+            }
+        }
+        cmd.stderr(std::process::Stdio::piped());
         let mut child = cmd.spawn().expect("spawn rustls-cert-gen");
+        // the reader of the pipe goes away at once: whatever the tool writes there gets EPIPE
+        drop(child.stdout.take());
         let mut err_pipe = child.stderr.take().expect("stderr pipe");
         let err_reader = std::thread::spawn(move || {
             let mut v = Vec::new();
